@@ -45,7 +45,9 @@ class Gates:
 
     # term helpers -------------------------------------------------------
     def is_parts(self, t):
-        """collect(split(param raw_token, '.'))"""
+        """collect(split(param raw_token, '.'))  (possibly viewed as a full slice: parts[..])"""
+        if isinstance(t, T) and t.op == "call" and re.search(r"Index<core::ops::range::RangeFull>>::index$", t.name) and t.args:
+            t = t.args[0]
         if not (isinstance(t, T) and t.op == "call" and re.search(r"Iterator>::collect::<alloc::vec::Vec<&str>>$|Iterator>::collect::<", t.name)):
             return False
         sp = t.args[0]
@@ -56,9 +58,14 @@ class Gates:
         t = content(t)
         if isinstance(t, T) and t.op == "call" and re.search(r"Index<usize>>::index$", t.name) and self.is_parts(t.args[0]) and t.args[1].op == "const":
             return t.args[1].name
+        # slice-pattern binding: parts[..][i]
+        if isinstance(t, T) and t.op == "index" and self.is_parts(t.args[0]) and t.args[1].op == "const" and isinstance(t.args[1].name, int) and t.args[1].name >= 0:
+            return t.args[1].name
         return None
 
     def parts_len(self, t):
+        if isinstance(t, T) and t.op == "unop" and t.name == "PtrMetadata" and self.is_parts(t.args[0]):
+            return True
         return isinstance(t, T) and t.op == "call" and re.search(r"Vec::<&str>::len$|Vec::<T, A>::len$|<impl \[T\]>::len$", t.name + " " + t.meta.get("def", "")) and self.is_parts(t.args[0])
 
     def expected_footer(self, t):
@@ -114,7 +121,21 @@ class Gates:
                     continue
                 a, b, pos, kind = eq
                 eq_edge = (sw["block"], tr if pos else fl)
-                self._classify_equality(a, b, kind, eq_edge, sw)
+                ne_edge = (sw["block"], fl if pos else tr)
+                # len == n  (slice patterns, explicit comparisons)
+                for x, y in ((a, b), (b, a)):
+                    if self.parts_len(x) and y.op == "const" and isinstance(y.name, int):
+                        n = y.name
+                        if n != 4:
+                            self.not4_edges.append(eq_edge)
+                        else:
+                            self.not4_edges.append(ne_edge)
+                        if n in (3, 4):
+                            self.in34_edges.append(eq_edge)
+                        self.instances.append("segment-count test len == %d at line %d" % (n, sw["ln"]))
+                        break
+                else:
+                    self._classify_equality(a, b, kind, eq_edge, sw)
             else:
                 # integer switch on the number of segments
                 if self.parts_len(t):
@@ -128,7 +149,7 @@ class Gates:
                     self.instances.append("segment-count switch on len with arms %s at line %d" % (sorted(sw["targets"]), sw["ln"]))
 
     def _classify_equality(self, a, b, kind, eq_edge, sw):
-        full_length = kind.startswith("ring") or kind.startswith("subtle") or bool(re.search(r"PartialEq <(str|alloc::string::String|\[u8\]|alloc::vec::Vec<u8>|&str|&\[u8\]|&alloc::string::String) as", kind)) or kind == "binop"
+        full_length = kind.startswith("ring") or kind.startswith("subtle") or bool(re.search(r"PartialEq <(str|alloc::string::String|\[u8\]|alloc::vec::Vec<u8>|&str|&\[u8\]|&alloc::string::String) as|PartialEq alloc::string::<impl core::cmp::PartialEq<(alloc::string::String|str|&'a str)> for (str|alloc::string::String|&'a str)>|PartialEq core::str::traits::<impl core::cmp::PartialEq for str>", kind)) or kind == "binop"
         # footer: (encode(expected), part3) in either order, or (expected bytes, decode(part3))
         for x, y in ((a, b), (b, a)):
             ex = self.encoded(x)
@@ -157,6 +178,18 @@ class Gates:
                         self.header_edges[pi].append(eq_edge)
             self.instances.append("header gate: %s over format(%r) of (segment 0, segment 1) vs (version, purpose) at line %d" % (kind.split(" ")[0], fa[0], sw["ln"]))
             return
+        # prefix idiom: raw_token[..len(E)] == E with E = format("{}.{}.", v, p): equal prefixes up to and including the second '.'
+        for x, y in ((a, b), (b, a)):
+            fy = self._fmt(y)
+            if fy and fy[0] in (b"\xc0\x01.\xc0\x01.\x00", 'b"\\xc0\\x01.\\xc0\\x01.\\x00"') and len(fy[1]) == 2 and self._is_vp_param(fy[1][0], 0) and self._is_vp_param(fy[1][1], 1) and \
+                    x.op == "call" and re.search(r"Index<core::ops::range::RangeTo<usize>> for str>::index$|<str as core::ops::index::Index<core::ops::range::RangeTo<usize>>>::index$", x.name) and \
+                    x.args[0].op == "param" and x.args[0].name == 1:
+                end = M.mk_field(x.args[1], "end")
+                if end.op == "call" and re.search(r"::len$", end.name) and end.args[0] == y and full_length:
+                    self.header_edges[0].append(eq_edge)
+                    self.header_edges[1].append(eq_edge)
+                    self.instances.append("header gate: token[..len(expected)] == expected with expected = format(\"{}.{}.\", version, purpose) at line %d" % sw["ln"])
+                    return
         for x, y in ((a, b), (b, a)):
             pi = self.part_index(x)
             if pi in (0, 1) and self._is_vp_param(y, pi) and full_length:
@@ -229,6 +262,8 @@ class Gates:
             if d[0] == "assign" and d[3]["k"] == "aggregate" and d[3].get("variant") == "Ok":
                 t = self.N.norm(self.v.op_term(d[3]["fields"][0]))
                 dd = self.decoded(t)
+                if dd is not None and dd.op == "phi" and all(self.part_index(x) == 2 for x in dd.args):
+                    continue
                 if dd is None or self.part_index(dd) != 2:
                     return False, "the returned bytes are %s, not the strict base64url decoding of segment 2" % M.show(t)[:160]
         return True, None
